@@ -1,4 +1,8 @@
 /// Multitude of distance metrics are defined here
 pub mod distance;
 pub mod num;
+#[cfg(not(smartcore_verif))]
 pub(crate) mod vector;
+#[cfg(smartcore_verif)]
+#[allow(missing_docs)]
+pub mod vector;
